@@ -2,7 +2,7 @@
    (content tables, raw modules lowered by the regenerated dispatch tables, ...) and hands everything else to
    [run_C01] of Model/C01_visitor.v. *)
 From Coq Require Import List ZArith String Ascii Bool Arith.
-From Verif Require Import Lib.Sexp Model.C01_base Gen.C01_tables Gen.C01_dispatch Model.C01_visitor Model.C01_content Model.C01_raw Model.C01_layout Model.C01_dedent Model.C01_resolve Model.C01_ext.
+From Verif Require Import Lib.Sexp Model.C01_base Gen.C01_tables Gen.C01_dispatch Model.C01_visitor Model.C01_content Model.C01_raw Model.C01_layout Model.C01_dedent Model.C01_resolve Model.C01_ext Model.C01_lines.
 Import ListNotations.
 Open Scope string_scope.
 Open Scope list_scope.
@@ -62,6 +62,11 @@ Definition run_C01_all (s : sexp) : sexp :=
           SList (map (fun log => SList (map (fun e => SList [of_nat e; SList (map enc_event (received e log))]) ids))
                      (run_history c h))
       | _, _ => bad_input end
+  | SList [SStr "lines-history"; h] =>
+      (* loads on a lines collection with a history: the text held for the loaded path after each load *)
+      match as_list_of dec_lstep h with
+      | Some steps => SList (map (fun o => match o with Some t => SList (map SStr t) | None => SStr "missing" end) (run_lines [] steps))
+      | None => bad_input end
   | SList [SStr "doc-labels"] =>
       (* the documented decorator table of theorem C01_decorator_labels_documented *)
       SList (map (fun p => SList [SStr p; enc_strs (doc_labels p)]) doc_paths)
